@@ -322,6 +322,35 @@ type c14Style struct {
 	crlf                         bool
 	tabs                         bool // indent by tabs
 	finalNL                      bool
+	uni                          bool // text string literals carry non-ASCII characters (columns count code points)
+}
+
+// c14Uni respells a text string literal token with characters of 2, 3 and 4 UTF-8 bytes (other tokens unchanged)
+func c14Uni(t string) string {
+	if len(t) < 2 {
+		return t
+	}
+	q := t[len(t)-1]
+	if (q != '\'' && q != '"') || strings.HasPrefix(t, "b") || strings.HasPrefix(t, "rb") {
+		return t
+	}
+	n := 1
+	if strings.HasSuffix(t, "\"\"\"") || strings.HasSuffix(t, "'''") {
+		n = 3
+	}
+	if len(t) < 2*n {
+		return t
+	}
+	return t[:len(t)-n] + "\u00e9\u65e5\U0001F600" + t[len(t)-n:]
+}
+
+func c14UniTree(n *c14Node) {
+	if n.K == "str" {
+		n.A = c14Uni(n.A)
+	}
+	for _, c := range n.C {
+		c14UniTree(c)
+	}
 }
 
 func c14MakeStyle(rnd *rand.Rand, lay int) c14Style {
@@ -338,6 +367,7 @@ func c14MakeStyle(rnd *rand.Rand, lay int) c14Style {
 		noSpace: pick(0, 0.5, 1), wide: pick(0, 0.3), brk: pick(0, 0.1, 0.3),
 		comment: pick(0, 0.2, 0.5), blank: pick(0, 0.3),
 		crlf: rnd.Intn(4) == 0, tabs: rnd.Intn(4) == 0, finalNL: rnd.Intn(3) != 0,
+		uni: rnd.Intn(3) == 0,
 	}
 }
 
@@ -495,6 +525,9 @@ func (l *c14Layout) run(toks []string) error {
 	for i, t := range toks {
 		last = t
 		if !strings.HasPrefix(t, "@") {
+			if l.st.uni {
+				t = c14Uni(t)
+			}
 			l.tok(t)
 			continue
 		}
@@ -752,6 +785,11 @@ func c14Trees(args []string) error {
 			rnd := rand.New(rand.NewSource(sd*1000003 + int64(rec.ID)*31 + int64(lay)))
 			l := &c14Layout{rnd: rnd, fileMode: *mode == "file"}
 			l.st = c14MakeStyle(rnd, lay)
+			for _, t := range rec.Toks {
+				if t == "load" { // the names of a load statement are string literals that the tree holds decoded
+					l.st.uni = false
+				}
+			}
 			if err := l.run(rec.Toks); err != nil {
 				return fmt.Errorf("record %d: %v", rec.ID, err)
 			}
@@ -759,6 +797,9 @@ func c14Trees(args []string) error {
 			var exp c14Node
 			if err := json.Unmarshal(rec.Tree, &exp); err != nil {
 				return err
+			}
+			if l.st.uni {
+				c14UniTree(&exp)
 			}
 			k := 0
 			if err := c14Assign(&exp, l.marks, &k); err != nil || k != len(l.marks) {
